@@ -205,10 +205,14 @@ Return ==
 (***************************************************************************)
 (* Pool of _write_parallel                                                 *)
 (***************************************************************************)
+\* ThreadPoolExecutor starts one thread per submitted task up to max_workers: pool thread k exists only
+\* if the job has at least k tasks
+PoolHas(w) == (w % 10) <= Len(TensorsOf(cfg, job[DrvOf(w)]))
+
 Take(w) ==
   /\ IsWrk(w) /\ pc[w] = "idle"
   /\ LET d == DrvOf(w)
-     IN /\ pc[d] = "pmain" /\ queue[d] # <<>>
+     IN /\ pc[d] = "pmain" /\ queue[d] # <<>> /\ PoolHas(w)
         /\ task' = [task EXCEPT ![w] = Head(queue[d])]
         /\ tstat' = [tstat EXCEPT ![Head(queue[d])] = "running"]
         /\ queue' = [queue EXCEPT ![d] = Tail(@)]
